@@ -433,3 +433,26 @@ func (w *World) ParamContent(p []string, l *Ledger) ([]*wire.MsgTx, bool) {
 	}
 	return nil, false
 }
+
+// OddBindingEvents hands the follower an UNCONFIRMED transaction whose output is a
+// binding-template script paying wallet A's first address with a 22-byte target of an
+// unknown type - a shape the script library classifies as a binding output but cannot turn
+// into an address. Consensus and mempool policy reject such a target
+// (poc.ProofType.EnsureBitLength), so no node mines it: it is delivered as a relayed
+// transaction only, as a stress input for C16/C19's "never panics whatever the script"; a
+// block containing it is NOT delivered (the follower refusing such a block would not be a
+// defect). The reference pending model is bypassed: no ledger oracle runs in these states.
+func (w *World) OddBindingEvents() error {
+	l := w.Ledger()
+	c := w.strangerCoin(l, nil)
+	if c == nil {
+		return fmt.Errorf("no stranger coin")
+	}
+	A := w.Wallets["A"]
+	target := append(fixedHash(0x63)[:20], 7, 99) // type 7, size 99: neither known nor in range
+	tx := spend([]*Coin{c}, out(4*Mass+9, bindingPk(A.Addrs[0].Hash, target)), out(c.Value-4*Mass-9-fee, w.SPk))
+	if err := w.I.W.VerifProcessTx(tx); err != nil {
+		w.HandlerErrs = append(w.HandlerErrs, "odd binding relay: "+err.Error())
+	}
+	return nil
+}
